@@ -5,6 +5,7 @@ from mirq.cfg import CFG
 from mirq.depend import Dependence
 from mirq.origin import Origins, show, walk, dominating_guards, lit_truth, decisions, calls_in
 from mirq.paths import Paths, Unsupported, variant_of, ptr_root, show_fact, show_eff
+from mirq.pat import strip_refs
 
 LOADSTORE = "embedded_graphics_core::pixelcolor::raw::load_store::LoadStore"
 DATAORDER = "embedded_graphics_core::pixelcolor::raw::DataOrder"
@@ -178,6 +179,11 @@ def run(ctx, rep):
         import traceback; traceback.print_exc()
         rep.fail('R11.7', 'engine', 'slot analysis crashed: %r' % (e,), status='undecided')
     check_iterator(prog, rep)
+    try:
+        check_subbyte_values(prog, rep, impls)
+    except Exception as e:
+        import traceback; traceback.print_exc()
+        rep.fail('R11.8', 'engine', 'bit-level analysis crashed: %r' % (e,), status='undecided')
 
 
 def _calls(f):
@@ -677,3 +683,73 @@ def check_slots(prog, rep, impls):
                 rep.sample({"rule": "R11.7", "raw": raw, "paths": len(summs), "accepting": n_acc, "rejecting": n_rej, "slots": sorted(map(str, slots_seen))})
             else:
                 rep.check(not writes_bad, "R11.7", raw + ":store-writes", "store may write only through the selected slot: " + "; ".join(sorted(set(writes_bad))[:3]), status="undecided" if all("unknown" in w for w in writes_bad) else "refuted", at=f.span, fn=f.path)
+
+
+def check_subbyte_values(prog, rep, impls):
+    """R11.8 bit-level round trip of the sub-byte raw types, in the bit-provenance domain (D2) on the value trees of the
+    path summaries: for every shift s that bit_position can select (0, bpp, .., 8 - bpp; which pixel gets which shift
+    is R11.5's table) the byte written by `store` carries the value's bits at [s, s + bpp) and the old byte's bits
+    everywhere else, and `load` returns exactly the bits [s, s + bpp) of the byte it reads, zero-extended.  The value is
+    assumed masked (bits >= bpp zero), which the raw constructors guarantee (C12 O3)."""
+    from mirq.bits import BitEval, BV, Struct, Unknown
+    from mirq.paths import Paths, Unsupported, variant_of, show_eff
+    from mirq.origin import subst
+    P_ = Paths(prog, inline=lambda g: prog.is_new(g))
+    BYTE, OLD = 900, 901
+
+    def prep(t, shift, slot_param):
+        """payload(get/get_mut(..)) -> an input byte; bit_position(..).1 -> the constant shift"""
+        def r(n):
+            if n[0] == "payload" and n[1][0] == "call" and n[1][1].split("::")[-1] in ("get", "get_mut"):
+                return ("param", slot_param, "byte")
+            if n[0] == "field" and n[2] == 1 and strip_refs(n[1])[0] == "call" and strip_refs(n[1])[1].endswith("bit_position"):
+                return ("const", shift)
+            if n[0] == "un" and n[1] == "Not" and n[2][0] != "cast":
+                return ("un", "Not", ("cast", prep(n[2], shift, slot_param), "u8"))   # the complement is taken in the byte's type
+            return None
+        return subst(t, r)
+
+    for impl in sorted(impls, key=short_raw):
+        raw = short_raw(impl)
+        bits = RAW_BITS.get(raw)
+        if bits is None or bits >= 8:
+            continue
+        adt = impl["self_ty"]["adt"]
+        load, store = prog.fns[impl["fns"]["load"]], prog.fns[impl["fns"]["store"]]
+        try:
+            ls, ss = P_.of(load), P_.of(store)
+        except Unsupported as e:
+            rep.fail("R11.8", raw, "cannot summarise load/store: %s" % e, status="undecided", at=load.span, fn=load.path)
+            continue
+        some = [sm for sm in ls if variant_of(sm.ret) and variant_of(sm.ret)[1] == "Some"]
+        okp = [sm for sm in ss if variant_of(sm.ret) and variant_of(sm.ret)[1] == "Ok"]
+        if len(some) != 1 or len(okp) != 1:
+            rep.fail("R11.8", raw, "expected one accepting path each in load and store (found %d / %d)" % (len(some), len(okp)), status="undecided", at=load.span, fn=load.path)
+            continue
+        writes = [e for e in okp[0].effects if e[0] == "write"]
+        others = [e for e in okp[0].effects if e[0] != "write"]
+        if len(writes) != 1 or others:
+            rep.fail("R11.8", raw + ":store", "the accepting path of store must perform exactly one byte write; found %s" % "; ".join(show_eff(e)[:80] for e in okp[0].effects), at=store.span, fn=store.path)
+            continue
+        for shift in range(0, 8, bits):
+            ev = BitEval(prog)
+            # ---- load
+            lv = prep(some[0].ret[2][0], shift, BYTE)
+            got = ev.eval(lv, {BYTE: BV.inp("byte", 8)}, load)
+            inner = got.fields.get(0) if isinstance(got, Struct) else got
+            want = BV([("in", "byte", shift + j) for j in range(bits)], 8)
+            good = isinstance(inner, BV) and inner == want and (inner.width or len(inner.bits)) <= 8
+            rep.check(good, "R11.8", "%s:load:shift%d" % (raw, shift), "load must return bits [%d, %d) of the byte, zero-extended; got %r" % (shift, shift + bits, inner), at=load.span, fn=load.path,
+                      status="refuted" if isinstance(inner, BV) and "T" not in [str(x) for x in inner.bits] else "undecided")
+            # ---- store
+            val = Struct(adt, {0: BV([("in", "v", j) for j in range(bits)], 8)})
+            sv = prep(writes[0][2], shift, OLD)
+            got = ev.eval(sv, {1: val, OLD: BV.inp("old", 8)}, store)
+            want = BV([("in", "v", j - shift) if shift <= j < shift + bits else ("in", "old", j) for j in range(8)], 8)
+            good = isinstance(got, BV) and got == want
+            rep.check(good, "R11.8", "%s:store:shift%d" % (raw, shift), "store must write the value's bits to [%d, %d) of the byte and keep the other bits; got %r" % (shift, shift + bits, got), at=store.span, fn=store.path,
+                      status="refuted" if isinstance(got, BV) and "T" not in [str(x) for x in got.bits] else "undecided")
+            # the written byte is the one that was read for the old value
+            lv_ = writes[0][1]
+            olds = [n for n in walk(writes[0][2]) if n[0] == "payload" and n[1][0] == "call" and n[1][1].split("::")[-1] in ("get", "get_mut")]
+            rep.check(bool(olds) and all(strip_refs(o) == strip_refs(lv_) for o in olds), "R11.8", "%s:store:same-byte" % raw, "store must read-modify-write one and the same byte", at=store.span, fn=store.path, nontrivial=False)
